@@ -1112,7 +1112,12 @@ def network_from_edges(edges, node_order_in_lists=None, **kwargs):
 
 		# Inventory policy.
 		if data_dict[n.index].get('inventory_policy') is not None:
-			n.inventory_policy = data_dict[n.index]['inventory_policy']
+			pol = data_dict[n.index]['inventory_policy']
+			# If the same Policy object was provided for several nodes (e.g., as a singleton), give each
+			# additional node its own copy, since a policy refers to (and reads the state of) its own node.
+			if any(m is not n and m.inventory_policy is pol for m in network.nodes):
+				pol = copy.copy(pol)
+			n.inventory_policy = pol
 			n.inventory_policy.node = n
 		else:
 			# Create Policy object.
@@ -1127,7 +1132,11 @@ def network_from_edges(edges, node_order_in_lists=None, **kwargs):
 
 		# Disruption process.
 		if data_dict[n.index].get('disruption_process') is not None:
-			n.disruption_process = data_dict[n.index]['disruption_process']
+			dp = data_dict[n.index]['disruption_process']
+			# Likewise, nodes must not share one DisruptionProcess object (it holds the node's disruption state).
+			if any(m is not n and m.disruption_process is dp for m in network.nodes):
+				dp = copy.copy(dp)
+			n.disruption_process = dp
 		else:
 			# Create DisruptionProcess object. (Don't override default values for disruption_type
 			# or disrupted with None.)
